@@ -13,7 +13,7 @@ func HarnessC10_AudioRT() {
 		SoundFormat: AudioCodec(vU8()), SoundRate: AudioSamplingRate(vU8()), SoundSize: AudioSampleBits(vU8()),
 		SoundType: AudioChannels(vU8()), Trait: AudioFrameTrait(vU8()), AudioLevel: vU16(),
 	}
-	f.Raw = vBytes(vChoice(4))
+	f.Raw = vBytes(vChoice(4 + 8*vTier()))
 	vAssume(vAnd(f.SoundFormat < 16, vAnd(f.SoundSize < 2, f.SoundType < 2)))
 	switch vChoice(3) {
 	case 0: // AAC: trait byte is the AAC packet type
@@ -55,7 +55,7 @@ func HarnessC10_AudioRT() {
 // HarnessC10_VideoRT: decode(encode(frame)) == frame for every valid video frame.
 func HarnessC10_VideoRT() {
 	f := &VideoFrame{CodecID: VideoCodec(vU8()), FrameType: VideoFrameType(vU8()), Trait: VideoFrameTrait(vU8()), CTS: vI32()}
-	f.Raw = vBytes(vChoice(5))
+	f.Raw = vBytes(vChoice(5 + 8*vTier()))
 	vAssume(vAnd(f.CodecID < 16, f.FrameType < 16))
 	if vChoice(2) == 0 {
 		vAssume(vOr(f.CodecID == VideoCodecAVC, f.CodecID == VideoCodecHEVC))
@@ -89,7 +89,7 @@ func HarnessC10_VideoRT() {
 // encode(decode(b)) == b. Canonical: for Opus the two sound-rate bits of the first byte are
 // zero (the rate travels in its own byte).
 func HarnessC10_AudioCanon() {
-	n := 1 + vChoice(7)
+	n := 1 + vChoice(7+9*vTier())
 	b := vBytes(n)
 	p, _ := NewAudioPackager()
 	f, err := p.Decode(b)
@@ -114,7 +114,7 @@ func HarnessC10_AudioCanon() {
 
 // HarnessC10_VideoCanon: every video tag body the packager accepts re-encodes to itself.
 func HarnessC10_VideoCanon() {
-	n := 1 + vChoice(7)
+	n := 1 + vChoice(7+9*vTier())
 	b := vBytes(n)
 	p, _ := NewVideoPackager()
 	f, err := p.Decode(b)
@@ -162,8 +162,8 @@ func HarnessC10_Rates() {
 // HarnessC10_Stateless: decoding depends only on the tag body: two bodies decoded one after
 // the other by the same packager give the frames that fresh packagers give.
 func HarnessC10_Stateless() {
-	b1 := vBytes(2 + vChoice(3))
-	b2 := vBytes(2 + vChoice(3))
+	b1 := vBytes(2 + vChoice(3+3*vTier()))
+	b2 := vBytes(2 + vChoice(3+3*vTier()))
 	shared, _ := NewAudioPackager()
 	f1, e1 := shared.Decode(b1)
 	f2, e2 := shared.Decode(b2)
